@@ -28,6 +28,12 @@ class Obligation(object):
         self.detail = detail
 
 
+def _has_quantifier(e):
+    if z3.is_quantifier(e):
+        return True
+    return any(_has_quantifier(c) for c in e.children())
+
+
 class Ctx(object):
     def __init__(self, prefix=(), timeout_ms=10000, label=''):
         self.prefix = list(prefix)
@@ -109,7 +115,11 @@ class Ctx(object):
         self.solver.add(f)
 
     def feasible(self, f=None):
-        r, _ = self._check(*([f] if f is not None else []))
+        self.solver.set('timeout', min(self.timeout_ms, 3000))
+        try:
+            r, _ = self._check(*([f] if f is not None else []))
+        finally:
+            self.solver.set('timeout', self.timeout_ms)
         return r != z3.unsat
 
     def branch(self, cond, where=''):
@@ -152,7 +162,7 @@ class Ctx(object):
         self.taken.append(d)
         return d
 
-    def oblige(self, name, goal, where=''):
+    def oblige(self, name, goal, where='', pure_hyps=None):
         import time
         if isinstance(goal, bool):
             goal = z3.BoolVal(goal)
@@ -163,7 +173,32 @@ class Ctx(object):
         if z3.is_true(goal):
             self.obligations.append(Obligation(name, 'proved', where=where))
             return
+        if pure_hyps is not None:
+            # algebraic identity at a fresh index: decided on its own, array elements abstracted
+            from .backends import prove_pure
+            r0, m0 = prove_pure(pure_hyps, goal, self.timeout_ms * 2)
+            dt = time.time() - t0
+            self.solver_time += dt
+            self.solver_calls += 1
+            if r0 == 'unsat':
+                self.obligations.append(Obligation(name, 'proved', where=where, time=dt, detail='pure'))
+                return
         r, m = self._check(z3.Not(goal))
+        if r == z3.unknown:
+            # retry without the quantified conjuncts of the path condition; a model found this way
+            # is only a candidate and must reproduce natively to count (weak model)
+            s2 = z3.Solver()
+            s2.set('timeout', self.timeout_ms)
+            for f in self.pc:
+                if not _has_quantifier(f):
+                    s2.add(f)
+            s2.add(z3.Not(goal))
+            if s2.check() == z3.sat:
+                dt = time.time() - t0
+                self.obligations.append(Obligation(name, 'refuted', model=s2.model(), where=where, time=dt,
+                                                   detail='[weak model: quantified hypotheses dropped] ' + str(goal)[:360]))
+                self.assume(goal)
+                return
         dt = time.time() - t0
         if r == z3.unsat:
             self.obligations.append(Obligation(name, 'proved', where=where, time=dt))
